@@ -41,7 +41,14 @@ CFG = Cfg(min_obj=1, max_obj=4, max_terms=1, max_target=4, max_exp=2,
 
 @st.composite
 def st_case(draw):
-    base = draw(st_expr_case(CFG))
+    # a block name (<name>_<space>) does not encode the upper/lower split:
+    # one rank per tensor name and term, as in every real use (cf. C17)
+    from ..gen import CAT_BY_NAME
+    cfg = Cfg(**CFG.__dict__)
+    cfg.rank_override = {}
+    for nm in ("A", "B", "C", "R", "t2", "X", "Y"):
+        cfg.rank_override[nm] = [draw(st.sampled_from(CAT_BY_NAME[nm][2]))]
+    base = draw(st_expr_case(cfg))
     tg = list(base["targets"])
     order = list(draw(st.permutations(tg)))
     return {"term": base["terms"][0], "targets": order,
@@ -119,6 +126,14 @@ def run_case(case):
     e = Expr(t)
     if len(e) != 1:
         raise BadCase("not a single term")
+    ranks = {}
+    for o in case["term"]["objs"]:
+        if o["k"] in ("A", "S", "T") and \
+                ranks.setdefault(o["name"], (len(o["u"]), len(o["l"]))) != \
+                (len(o["u"]), len(o["l"])):
+            # A^i_j and A^{ij} both are 'A_oo' with indices (i, j): the
+            # scheme text cannot tell them apart
+            raise BadCase("one tensor name with two upper/lower splits")
     term = e.terms[0]
     tl = list(case["targets"])
     ein = sorted(l for l, n in term_label_count(case["term"]).items() if n == 1)
